@@ -1,1 +1,2 @@
 import Driver.Slice
+import Driver.Stream
